@@ -234,15 +234,32 @@ def exec_case(ctx, r):
         return np.all(np.abs(a - b) <= 16 * M.EPS * (np.abs(a) + np.abs(b)) + 1e-300)
 
     k = len(cuts)
-    for trial in range(4):
+    lens = cuts[:, 1] - cuts[:, 0]
+    for trial in range(8):
         if trial == 0:
             sel = rng.permutation(k)
         elif trial == 1:
             sel = rng.integers(0, k, size=int(rng.integers(1, min(k, 7) + 1)))
         elif trial == 2:
             sel = np.array([int(rng.integers(k))])
-        else:
+        elif trial == 3:
             sel = np.sort(rng.choice(k, size=max(1, k // 2), replace=False))[::-1]
+        else:
+            # regular batches, the shapes a detector (or a "vectorised" fast path) would produce: all rows
+            # of one length (sliding window), rows sharing their start / their end, a contiguous tiling
+            piv = cuts[int(rng.integers(k))]
+            if trial == 4:
+                sel = np.flatnonzero(lens == piv[1] - piv[0])
+            elif trial == 5:
+                sel = np.flatnonzero(cuts[:, 0] == piv[0])
+            elif trial == 6:
+                sel = np.flatnonzero(cuts[:, 1] == piv[1])
+            else:
+                L = int(piv[1] - piv[0])
+                sel = np.flatnonzero((lens == L) & ((cuts[:, 0] - piv[0]) % L == 0))
+            ctx.stat("regular_batches")
+            if len(sel) >= 2:
+                ctx.stat("regular_batches_with_2+_rows")
         arg = cuts[sel]
         if trial == 2 and rng.random() < 0.5:
             arg = arg[0]  # a 1-D cut is one row
